@@ -23,11 +23,14 @@ fn main() {
         None => { eprintln!("unknown workload {} (known: {:?})", workload, w::NAMES); std::process::exit(2); }
     };
     let problems = chrono_verif_harness::proj::PROBLEMS.lock().unwrap().clone();
-    if !problems.is_empty() {
-        let mut tw = chrono_verif_harness::out::Tw::new(&ctx.out, "Trace_Calendar", 1000);
-        tw.roll();
-        for p in problems { tw.emit(p); }
-        tw.finish();
+    for module in ["Trace_Calendar", "Trace_Duration", "Trace_TimeOfDay"] {
+        let evs: Vec<_> = problems.iter().filter(|(m, _)| *m == module).map(|(_, e)| e.clone()).collect();
+        if !evs.is_empty() {
+            let mut tw = chrono_verif_harness::out::Tw::new(&ctx.out, module, 1000);
+            tw.roll();
+            for e in evs { tw.emit(e); }
+            tw.finish();
+        }
     }
     println!("SUMMARY {}", summary);
 }
